@@ -83,7 +83,8 @@ def make_start(start, model):
 
 def plan_start(rng, spec, kind=None, ccfg=None, lcfg=None):
     kind = kind or rng.weighted([('decoded', 5), ('handbuilt', 4)])
-    ccfg = ccfg or gcontent.ContentCfg(max_nodes=rng.pick([1, 2, 3, 4, 5, 6]), p_none_target=0.03)
+    ccfg = ccfg or gcontent.ContentCfg(max_nodes=rng.weighted([(1, 2), (2, 3), (3, 3), (4, 3), (5, 3), (6, 3), (9, 1), (14, 1)]),
+                                       p_none_target=0.03)
     c = gcontent.gen_content(rng.sub('content'), spec, ccfg)
     if kind == 'decoded':
         lcfg = lcfg or gcontent.LayoutCfg(p_align=rng.pick([0, 0, 0.3]))
